@@ -35,11 +35,31 @@ __attribute__((used, visibility("default"))) const char* __ubsan_default_options
   return "halt_on_error=1:exitcode=77:print_stacktrace=1";
 }
 __attribute__((used, visibility("default"))) const char* __tsan_default_options() {
-  return "halt_on_error=1:exitcode=77:report_signal_unsafe=0:die_after_fork=0:history_size=2";
+  return "halt_on_error=1:exitcode=77:report_signal_unsafe=0:die_after_fork=0:history_size=2:atexit_sleep_ms=0";
 }
 }
 
+extern "C" {
+void AnnotateIgnoreReadsBegin(const char* f, int l) __attribute__((weak));
+void AnnotateIgnoreReadsEnd(const char* f, int l) __attribute__((weak));
+void AnnotateIgnoreWritesBegin(const char* f, int l) __attribute__((weak));
+void AnnotateIgnoreWritesEnd(const char* f, int l) __attribute__((weak));
+}
+
 namespace vsim {
+
+void tsan_ignore_begin() {
+  if (AnnotateIgnoreReadsBegin) {
+    AnnotateIgnoreReadsBegin(__FILE__, __LINE__);
+    AnnotateIgnoreWritesBegin(__FILE__, __LINE__);
+  }
+}
+void tsan_ignore_end() {
+  if (AnnotateIgnoreReadsEnd) {
+    AnnotateIgnoreWritesEnd(__FILE__, __LINE__);
+    AnnotateIgnoreReadsEnd(__FILE__, __LINE__);
+  }
+}
 
 // ------------------------------------------------------------------ small utilities
 
@@ -223,6 +243,7 @@ static int counter_index(const char* name) {
 }
 
 void count(const char* name, uint64_t delta) {
+  Quiet quiet;
   int i = counter_index(name);
   if (i >= 0) {
     Slot* s = g_slot ? g_slot : &g_local_slot;
@@ -247,6 +268,7 @@ void add_sim_time_us(uint64_t us) {
 }
 
 void set_context(const std::string& ctx) {
+  Quiet quiet;
   Slot* s = g_slot ? g_slot : &g_local_slot;
   size_t n = std::min(ctx.size(), sizeof(s->context) - 1);
   memcpy(s->context, ctx.data(), n);
@@ -347,6 +369,7 @@ void note(const std::string& text) {
 bool verbose() { return g_run && g_run->verbose; }
 
 void hash_bytes(const void* data, size_t size) {
+  Quiet quiet;
   const uint8_t* p = (const uint8_t*)data;
   uint64_t h = 0xCBF29CE484222325ULL;
   for (size_t i = 0; i < size; i++) {
@@ -545,6 +568,7 @@ static std::string work_dir() {
 }
 
 static void remove_work_dir() {
+  if (getenv("VERIF_KEEP_WORK")) return;
   std::string d = work_dir();
   std::string cmd = "rm -rf '" + d + "'";
   if (system(cmd.c_str())) {
@@ -1058,6 +1082,7 @@ int driver_main(int argc, char** argv, const Engine& e) {
   int64_t one_idx = -1;
   double cap_override = -1;
   bool no_shrink = false;
+  std::vector<std::pair<std::string, std::string>> embeds; // name -> path of a JSON file to embed into coverage
 
   for (int i = 1; i < argc; i++) {
     std::string a = argv[i];
@@ -1080,6 +1105,15 @@ int driver_main(int argc, char** argv, const Engine& e) {
     else if (a == "--one") one_idx = strtoll(next().c_str(), nullptr, 0);
     else if (a == "--cap") cap_override = atof(next().c_str());
     else if (a == "--no-shrink") no_shrink = true;
+    else if (a == "--embed") {
+      std::string v = next();
+      size_t eq = v.find('=');
+      if (eq == std::string::npos) {
+        fprintf(stderr, "--embed wants name=path\n");
+        return 2;
+      }
+      embeds.emplace_back(v.substr(0, eq), v.substr(eq + 1));
+    }
     else {
       fprintf(stderr, "unknown argument %s\n", a.c_str());
       return 2;
@@ -1170,7 +1204,7 @@ int driver_main(int argc, char** argv, const Engine& e) {
     if (pid < 0) harness_bug("fork failed");
     if (pid == 0) {
       std::string errpath = wd + strprintf("/worker-%u.err", k);
-      int efd = open(errpath.c_str(), O_CREAT | O_TRUNC | O_WRONLY, 0600);
+      int efd = open(errpath.c_str(), O_CREAT | O_APPEND | O_WRONLY, 0600);
       if (efd >= 0) {
         dup2(efd, 2);
         close(efd);
@@ -1498,6 +1532,14 @@ int driver_main(int argc, char** argv, const Engine& e) {
     for (size_t i = 0; i < e.components.size(); i++)
       fprintf(f, "%s%s: %s", i ? ", " : "", jstr(e.components[i].first).c_str(), jstr(e.components[i].second).c_str());
     fprintf(f, "},\n");
+    for (auto& em : embeds) {
+      std::string text = read_file_head(em.second, 8 << 20);
+      jsonmin::Value tmpv;
+      std::string perr;
+      while (!text.empty() && (text.back() == '\n' || text.back() == ' ')) text.pop_back();
+      if (!text.empty() && jsonmin::parse(text, tmpv, perr)) fprintf(f, "  %s: %s,\n", jstr(em.first).c_str(), text.c_str());
+      else fprintf(f, "  %s: null,\n", jstr(em.first).c_str());
+    }
     if (e.extra_evidence_json) {
       std::string x = e.extra_evidence_json();
       if (!x.empty()) fprintf(f, "  %s,\n", x.c_str());
